@@ -197,6 +197,17 @@ func runCheck(id, tier, repo, keep string, writeEvidence bool) int {
 			if !oblSelected(o, id, us) {
 				continue
 			}
+			if o.ExpectSat {
+				skip := false
+				for _, uo := range us.UnreachableOK {
+					if strings.HasSuffix(o.Name, uo) {
+						skip = true
+					}
+				}
+				if skip {
+					continue // declared unreachable: its unreachability is what the ensures at that site prove
+				}
+			}
 			all = append(all, o)
 			n++
 		}
